@@ -299,6 +299,19 @@ Proof.
   rewrite Z.ltb_irrefl. reflexivity.
 Qed.
 
+(* a piece larger than the count requested is handed out over several reads *)
+Lemma sys_read_clipped : forall rem sched count n,
+  1 <= count < n -> n <= zlen rem ->
+  sys_read (mkStream rem (n :: sched)) count =
+  (ztake count rem, mkStream (zdrop count rem) ((n - count) :: sched)).
+Proof.
+  intros rem sched count n H1 H2. unfold sys_read. cbn [s_rem s_sched].
+  destruct rem as [|z r]; [rewrite zlen_nil in H2; lia|].
+  rewrite Z.max_r by lia.
+  replace (Z.min count (Z.min n (zlen (z :: r)))) with count by lia.
+  destruct (count <? n) eqn:L; [reflexivity|apply Z.ltb_ge in L; lia].
+Qed.
+
 (* ------------------------------------------------------------------------------------ *)
 (* the loop *)
 Lemma rl_grow_ok : forall len cap vcap,
